@@ -552,6 +552,16 @@ func unsyncedRegions(im, base *Image, seg int64) []region {
 			hi = frames[n-1].End
 		}
 		lo := int64(0)
+		if old == nil {
+			// A segment created since the durable point: its head records (crc,
+			// metadata, hard-state copy) are written and synced before the rename
+			// publishes it (not fdatasync'ed with optimizedFsync, whose power-loss
+			// durability is not claimed): taken as on disk.
+			want := []int64{4, 1, 3}
+			for k := 0; k < len(frames) && k < 3 && frames[k].Type == want[k]; k++ {
+				lo = frames[k].End
+			}
+		}
 		if old != nil {
 			if bytes.Equal(old.Data, f.Data) {
 				continue
